@@ -94,7 +94,7 @@ Definition alloc_param_gen (fixed_d11 : bool) (t : ptable) (k : pkind) (fail : n
     | Some off =>
       let h := pt_first_free t + off in
       if fail =? 1 then
-        AFail (mkPT (pt_slots t) (pt_count t) (if fixed_d11 then Nat.min h (S h) else S h))
+        AFail (mkPT (pt_slots t) (pt_count t) (if fixed_d11 then h else S h))
       else AOk (mkPT (upd (pt_slots t) h fresh) (S (pt_count t)) (S h)) h
     end
   else
